@@ -1002,6 +1002,7 @@ class Context(MetadataContextMixin, object):
 
         The input_value parameter can be used to specify the input value for the first action.
         """
+        store_metadata_was_enabled = self.enable_store_metadata
         self.enable_store_metadata = False  # Prevents overwriting cache with metadata
         self.status = Status.EVALUATION
         self.debug(f"EVALUATE {query} ")
@@ -1026,7 +1027,8 @@ class Context(MetadataContextMixin, object):
                     self.log_dict(d)
             #            self.enable_store_metadata = True
             self.store_metadata(force=True)
-            self.enable_store_metadata = False
+            # the evaluation that asked for the sub-query goes on (and may still fail): it keeps writing its metadata as before
+            self.enable_store_metadata = store_metadata_was_enabled
             state = self.index_state(state)
             return state
 
